@@ -56,5 +56,14 @@ CHECKS["C01"] = {
     "quick": {"checks": 120, "timeout": 1200},
     "thorough": {"checks": 1500, "timeout": 3400, "shards": 8},
 }
+CHECKS["C03"] = {
+    "pkg": "./props/c03",
+    "level": "exploration",
+    "technique": "property-based testing (rapid): sign generated artefacts, compare payload items before/after with independent readers",
+    "level_text": "For PE, MSI/CFB, JAR (plain and hostile layouts: prefix bytes, gaps, zero-length members, long names), PowerShell scripts, XAP, VSIX, APPX, APK, Mach-O and DEB an input is generated (or a fixture drawn), signed through the library pipeline to the same or a new path, and the outcome must be either (error, input byte-identical, nothing left behind) or (success; output accepted by an independent reader - Go archive/zip, debug/macho, ar, harness PE parser, harness CFB validator; every payload item that is not signature metadata identical in bytes, metadata and order; relic's verifier accepts it).",
+    "level_note": "Signature metadata per format is listed in harness/arts (e.g. META-INF/*.SF|RSA|EC|MANIFEST.MF for JAR; AppxManifest.xml for APPX because relic rewrites its Publisher by design). CAB, CAT, DMG, XAR and RPM have no independent payload reader here and are not covered by this check.",
+    "quick": {"checks": 120, "timeout": 1200},
+    "thorough": {"checks": 2500, "timeout": 3400, "shards": 8},
+}
 for _pid in CHECKS:
     NOT_APPLICABLE.pop(_pid, None)
